@@ -32,7 +32,7 @@ func init() {
 		Real:     []string{"seehuhn.de/go/pdf Writer, Reader, scanner, filters, crypto (working tree)", "compress/zlib", "crypto/*"},
 		Stub:     []string{"sink (simdisk: 5 kinds)", "io.ReaderAt (simdisk.Handle: 2 EOF personalities)", "crypto/rand.Reader (tape-seeded)", "write chunking (simio schedule)"},
 		Quick:    core.Budget{Runs: 160000, Secs: 150},
-		Thorough: core.Budget{Runs: 3000000, Secs: 1500},
+		Thorough: core.Budget{Runs: 3000000, Secs: 900},
 		Run:      Run,
 		Corners:  corners,
 	})
